@@ -19,6 +19,9 @@ pub use crate::buffer::{
 };
 pub use crate::socket::{Socket, TcpSocket, UdpSocket};
 pub use crate::utils::{error_by_expected_size, retry_on_timeout, u8_lower_upper};
+/// The crate-private HTTP client types (named by the harness crate to observe
+/// the address the Eco query connects to).
+pub use crate::http::{HttpClient, HttpProtocol, HttpSettings};
 
 /// Thin public wrappers around crate-private codecs (the harness crate lives
 /// outside this crate).
